@@ -29,7 +29,7 @@ from detsim.sched import HarnessError, Scheduler
 PROP = "C14"
 LEVEL = "exploration"
 RUNS = {"quick": 3200, "thorough": 60000}
-BUDGET_S = {"quick": 90, "thorough": 1500}
+BUDGET_S = {"quick": 150, "thorough": 1500}
 RULE = ("each evaluation is one stored variant (junk inserted with multiplicity / one junk line "
         "moved / one junk line deleted / a parsable line garbled / that line deleted) of a "
         "generated chart parsed once under the dispatcher monitor. Distinct = distinct variant "
